@@ -2842,6 +2842,22 @@ func (d *Document) parseSectionProperties(decoder *xml.Decoder, startElement xml
 				if err := d.skipElement(decoder, t.Name.Local); err != nil {
 					return nil, err
 				}
+			case "titlePg":
+				// 解析首页不同设置（w:val 为 0/false/off 时表示关闭）
+				if val := getAttributeValue(t.Attr, "val"); val == "0" || val == "false" || val == "off" {
+					sectPr.TitlePage = nil
+				} else {
+					sectPr.TitlePage = &TitlePage{}
+				}
+				if err := d.skipElement(decoder, t.Name.Local); err != nil {
+					return nil, err
+				}
+			case "pgNumType":
+				// 解析页码格式
+				sectPr.PageNumType = &PageNumType{Fmt: getAttributeValue(t.Attr, "fmt")}
+				if err := d.skipElement(decoder, t.Name.Local); err != nil {
+					return nil, err
+				}
 			default:
 				// 跳过其他节属性
 				if err := d.skipElement(decoder, t.Name.Local); err != nil {
